@@ -160,8 +160,10 @@ func nameOfLen(n, seed int) string {
 	return string(b)
 }
 
-func validHostName(s string) bool {
-	if s == "" || net.ParseIP(s) != nil {
+func validHostName(s string) bool { return net.ParseIP(s) == nil && validLabels(s) }
+
+func validLabels(s string) bool {
+	if s == "" {
 		return false
 	}
 	for _, l := range strings.Split(s, ".") {
@@ -250,7 +252,8 @@ func judgeDest(r *concRig, d *dnsDouble, c Case) (f *failure) {
 func judgeDestOnce(r *concRig, d *dnsDouble, c Case) *failure {
 	const p = "C20/adapter-destination"
 	ref := refNegotiate(c.Stream)
-	if !ref.OK || ref.Lenient || ref.Cmd != rCmdConnect {
+	emptyName := ref.OK && ref.Atyp == rDomain && len(ref.Addr) == 0 && ref.Rsv == 0 && ref.Cmd == rCmdConnect
+	if !ref.OK || (ref.Lenient && !emptyName) || ref.Cmd != rCmdConnect {
 		return &failure{p + "/harness-io", "case outside the generator's domain"}
 	}
 	var t *target
@@ -266,23 +269,31 @@ func judgeDestOnce(r *concRig, d *dnsDouble, c Case) *failure {
 	if err != nil {
 		return &failure{p + "/harness-io", err.Error()}
 	}
+	if emptyName {
+		return nil // RFC-open (accept the empty name or refuse it); what matters is that the server survives it
+	}
 	want := destString(ref.Atyp, ref.Addr)
 	if ref.Atyp == rDomain && net.ParseIP(want) == nil {
-		resolvable := len(ref.Addr) <= 253
-		if resolvable && !lookedUp(o.looked, want) {
+		// the name as a DNS query carries it: the root label (one trailing dot) is not spelled out on the wire
+		wire := strings.TrimSuffix(want, ".")
+		// names that certainly have to be looked up: syntactically valid host names that fit in a DNS name
+		mustLookup := len(wire) <= 253 && validHostName(wire)
+		if mustLookup && !lookedUp(o.looked, wire) {
 			key := p + "/domain-name-not-looked-up-as-sent/other-length"
 			if n := len(ref.Addr); n == 4 || n == 16 {
 				key = p + "/domain-name-not-looked-up-as-sent/name-as-long-as-an-ip-address"
+			} else if strings.HasSuffix(want, ".") {
+				key = p + "/domain-name-not-looked-up-as-sent/name-with-trailing-dot"
 			}
 			return &failure{key, fmt.Sprintf("CONNECT to the name %q (%d octets) port %d: the adapter never looked that name up (names looked up: %q); server wrote % x", want, len(ref.Addr), ref.Port, o.looked, o.w[:minInt(len(o.w), 16)])}
 		}
 		for _, q := range o.looked {
-			if !lookedUp([]string{q}, want) {
+			if !lookedUp([]string{q}, wire) {
 				return &failure{p + "/looked-up-a-different-name", fmt.Sprintf("CONNECT to the name %q: the adapter looked up %q", want, q)}
 			}
 		}
-		if !resolvable {
-			return nil // longer than a DNS name can be: only the parse-level checks apply
+		if !mustLookup {
+			return nil // not a name a resolver has to accept: only the parse-level checks and the lookups seen apply
 		}
 	} else if len(o.looked) > 0 {
 		return &failure{fmt.Sprintf("%s/address-looked-up-as-name/atyp=%d", p, ref.Atyp), fmt.Sprintf("CONNECT to the address %s: the adapter looked up %q", want, o.looked)}
@@ -331,6 +342,7 @@ func checkDest(t vkit.TB, c Case) bool {
 		t.Fatalf("INCONCLUSIVE: cannot start the DNS double: %v", err)
 		return false
 	}
+	vkit.Journal("adapter-destination", c) // a panic in the adapter's connection goroutine kills the process
 	if f := judgeDest(r, d, c); f != nil {
 		if strings.HasSuffix(f.key, "/harness-io") {
 			t.Fatalf("INCONCLUSIVE: %s", f.detail)
@@ -344,6 +356,10 @@ func checkDest(t vkit.TB, c Case) bool {
 	class := fmt.Sprintf("adapter-dest:atyp=%d", ref.Atyp)
 	if ref.Atyp == rDomain {
 		switch n := len(ref.Addr); {
+		case n == 0:
+			class += "/empty-name"
+		case ref.Addr[n-1] == '.':
+			class += "/name-with-trailing-dot"
 		case n == 4 || n == 16:
 			class += "/name-as-long-as-an-ip-address"
 		case n > 253:
@@ -390,7 +406,12 @@ func TestAdapterDestinations(t *testing.T) {
 	}
 	if vkit.Mine(0) {
 		mapped := append([]byte{0, 0, 0, 0, 0, 0, 0, 0, 0, 0, 0xFF, 0xFF}, tg.ip...)
-		for _, s := range [][]byte{mk(rIPv4, tg.ip), mk(rIPv6, mapped), mk(rDomain, []byte("127.0.0.1"))} {
+		streams := [][]byte{mk(rIPv4, tg.ip), mk(rIPv6, mapped), mk(rDomain, []byte("127.0.0.1")), mk(rDomain, nil)}
+		// names that end in '.', names that only become something else when a trailing '.' is dropped
+		for _, name := range []string{"example.com.", "a.", "127.0.0.1.", "10.0.0.1.", "a..", "host.example..", ".", "..", "x.y.z.", nameOfLen(62, 5) + ".", nameOfLen(252, 9) + "."} {
+			streams = append(streams, mk(rDomain, []byte(name)))
+		}
+		for _, s := range streams {
 			if !checkDest(t, Case{Kind: "adapter-dest", Stream: s}) {
 				return
 			}
